@@ -1,5 +1,5 @@
 (* C17 model runner.  One case per line:
-   <id> T|A <maxretry> <minw> <maxw> <tbl> <dflt> <cancel> <bodykind> <hexbody> <script>
+   <id> T|A|W <maxretry> <minw> <maxw> <tbl> <dflt> <cancel> <bodykind> <hexbody> <script>
         tbl     comma separated integers, or -
         cancel  - | <tc>:c | <tc>:d
         bodykind N | R | O | G<k>      (A only: prefix M = manifest push through an auth client, m = through another client)
@@ -106,7 +106,7 @@ let guarded = exp_backoff_guarded
 let () =
   iter_lines (fun l ->
     match split_ws l with
-    | [id; ("T" | "A") as op; mr; mn; mx; tbl; dflt; cn; kind; body; script] ->
+    | [id; ("T" | "A" | "W") as op; mr; mn; mx; tbl; dflt; cn; kind; body; script] ->
       let p = table_policy (z_of_string mr) (z_of_string mn) (z_of_string mx)
           (List.map z_of_string (split_on ',' tbl)) (z_of_string dflt) in
       let manifest, kind' =
@@ -122,9 +122,9 @@ let () =
         Printf.printf "%s %s end=%s first=%s\n" id (show_result o.o_res) (string_of_z o.o_time)
           (show_attempts bd.bdata o.o_trace)
       end else begin
-        let o = auth_do p cn bd sc in
-        Printf.printf "%s %s end=%s first=%s second=%s\n" id (show_result o.a_res) (string_of_z o.a_time)
-          (show_attempts bd.bdata o.a_first) (show_attempts bd.bdata o.a_second)
+        let o = auth_do (op = "W") p cn bd sc in
+        Printf.printf "%s %s end=%s first=%s second=%s third=%s\n" id (show_result o.a_res) (string_of_z o.a_time)
+          (show_attempts bd.bdata o.a_first) (show_attempts bd.bdata o.a_second) (show_attempts bd.bdata o.a_third)
       end
     | [id; "D"; mr; mn; mx; tbl; dflt; att; out] ->
       let p = table_policy (z_of_string mr) (z_of_string mn) (z_of_string mx)
